@@ -74,7 +74,7 @@ func tags(ts []string) string {
 
 type hostRunner struct {
 	dr      *ysgo.DialogueRunner
-	storer  *variable.InMemoryStorer
+	storer  variable.Storer
 	log     []string
 	ctl     chan error
 	waiting int // number of options presented by the last element, 0 if none
@@ -111,8 +111,62 @@ func setValue(st variable.Storer, name string, v *variable.Value) {
 	}
 }
 
+// mapStorer is a storer of the host's own: the library must work through the variable.Storer interface alone. One map,
+// copies in and out (the behaviour the interface promises, implemented independently of variable.InMemoryStorer).
+type mapStorer struct{ m map[string]variable.Value }
+
+func copyValue(v variable.Value) variable.Value {
+	var c variable.Value
+	if v.Number != nil {
+		n := *v.Number
+		c.Number = &n
+	}
+	if v.Boolean != nil {
+		b := *v.Boolean
+		c.Boolean = &b
+	}
+	if v.String != nil {
+		t := *v.String
+		c.String = &t
+	}
+	return c
+}
+
+func (s *mapStorer) GetValue(name string) (*variable.Value, bool) {
+	v, ok := s.m[name]
+	if !ok {
+		return nil, false
+	}
+	c := copyValue(v)
+	return &c, true
+}
+
+func (s *mapStorer) GetValues() map[string]variable.Value {
+	out := make(map[string]variable.Value, len(s.m))
+	for k, v := range s.m {
+		out[k] = copyValue(v)
+	}
+	return out
+}
+
+func (s *mapStorer) Contains(name string) bool { _, ok := s.m[name]; return ok }
+func (s *mapStorer) SetNumberValue(name string, v float64) {
+	s.m[name] = variable.Value{Number: &v}
+}
+func (s *mapStorer) SetBooleanValue(name string, v bool) {
+	s.m[name] = variable.Value{Boolean: &v}
+}
+func (s *mapStorer) SetStringValue(name string, v string) {
+	s.m[name] = variable.Value{String: &v}
+}
+func (s *mapStorer) Clear() { s.m = map[string]variable.Value{} }
+
 func newHostRunner(c *sexp.S) (*hostRunner, error) {
 	h := &hostRunner{storer: variable.NewInMemoryStorer()}
+	// every other case runs on a storer of the host's own
+	if id := c.List[2].Atom; len(id) > 0 && (id[len(id)-1]-'0')%2 == 1 {
+		h.storer = &mapStorer{m: map[string]variable.Value{}}
+	}
 	if vars := c.Find("vars"); vars != nil {
 		for _, kv := range vars.Args() {
 			setValue(h.storer, kv.List[0].GoString(), decodeValue(kv.List[1]))
